@@ -279,7 +279,7 @@ func keyHash(mode string, k uint64) (uint64, uint64) {
 	}
 }
 
-func costOf(v uint64) int64           { return int64(v%5) + 1 }
+func costOf(v uint64) int64           { return int64(v%5)*9 + 1 } // 1, 10, 19, 28, 37: comparable with MaxCost
 func shouldUpd(cur, prev uint64) bool { return cur%4 != 0 }
 
 func streamCache(r *Run, mode string) {
@@ -316,6 +316,17 @@ func runCacheCase(r *Run, mode string, seed int64, sample bool) {
 		cfg.metrics = rng.Intn(8) != 0
 		cfg.nKeys = 2 + rng.Intn(6)
 		cfg.script = scriptNames[rng.Intn(len(scriptNames))]
+		if cfg.script == "benign_fill" {
+			cfg.nKeys = 8 + rng.Intn(9)
+			cfg.maxCost = int64(30 + rng.Intn(90))
+			cfg.costFn = rng.Intn(2) == 0
+			cfg.su = false
+			cfg.bufCap = int64(2 + rng.Intn(6))
+			cfg.ignoreInternal = rng.Intn(4) != 0
+			if !cfg.ignoreInternal {
+				cfg.maxCost += 56 * int64(cfg.nKeys/2)
+			}
+		}
 		if scriptSequential[cfg.script] && rng.Intn(2) == 0 {
 			cfg.seqRoom = true
 			cfg.maxCost = 100000
@@ -327,7 +338,7 @@ func runCacheCase(r *Run, mode string, seed int64, sample bool) {
 		// that need several victims, rejections after a partial eviction
 		cfg.maxCost = int64(8 + rng.Intn(12))
 		cfg.ignoreInternal = true
-		cfg.costFn = false
+		cfg.costFn = rng.Intn(4) == 0
 		cfg.su = false
 		cfg.bufferItems = 1
 		cfg.nKeys = 4 + rng.Intn(5)
@@ -466,6 +477,9 @@ func cacheCaseBody(r *Run, rng *rand.Rand, cfg cacheCfg, nClients int, sample bo
 				rec.cost = cfg.maxCost
 			default:
 				rec.cost = 1 + rng.Int63n(cfg.maxCost/3+1)
+			}
+			if cfg.costFn && rng.Intn(2) == 0 {
+				rec.cost = 0 // let Config.Cost decide
 			}
 			if cfg.mode == "single" {
 				rec.cost = 1 + rng.Int63n(20)
@@ -866,6 +880,49 @@ func oracleQuiescent(r *Run, s *sched, cfg cacheCfg, cache *ristretto.Cache[uint
 	}
 	if rem := cache.RemainingCost(); rem != sn.MaxCost-sum {
 		r.Fail("C03", fmt.Sprintf("RemainingCost()=%d, MaxCost-sum=%d", rem, sn.MaxCost-sum), in)
+	}
+	// C03 proper: along a benign history (MaxCost never changed; no Set could raise the accounted
+	// cost of its key: per key the effective costs are non-increasing in call order and equal for
+	// overlapping calls, so that FIFO application keeps them non-increasing) admissions never push
+	// the accounted cost above MaxCost (Lean: c03_no_overshoot, every state of a benign run)
+	benign := cfg.mode != "collide"
+	eff := func(c *callRec) int64 {
+		if c.cost == 0 && cfg.costFn {
+			return costOf(c.val)
+		}
+		return c.cost
+	}
+	bySetKey := map[uint64][]*callRec{}
+	for _, c := range calls {
+		switch c.kind {
+		case "updmax":
+			benign = false
+		case "set":
+			if c.cost < 0 {
+				benign = false
+			}
+			bySetKey[c.key] = append(bySetKey[c.key], c)
+		}
+	}
+	for _, cs := range bySetKey {
+		for i, a := range cs {
+			for _, b := range cs[i+1:] {
+				lo, hi := a, b
+				if b.startSeq < a.startSeq {
+					lo, hi = b, a
+				}
+				overlap := lo.endSeq == 0 || hi.startSeq < lo.endSeq
+				if eff(hi) > eff(lo) || (overlap && eff(hi) != eff(lo)) {
+					benign = false
+				}
+			}
+		}
+	}
+	if benign {
+		r.Count("c03_benign_histories")
+		if sn.Used > sn.MaxCost {
+			r.Fail("C03", fmt.Sprintf("accounted cost %d exceeds MaxCost %d (RemainingCost()=%d) although MaxCost was never changed and no Set raised the cost of its key", sn.Used, sn.MaxCost, cache.RemainingCost()), in)
+		}
 	}
 	if cfg.mode != "collide" {
 		pk := map[uint64]bool{}
